@@ -72,7 +72,15 @@ func price(name string) sdkmath.LegacyDec {
 // guard runs f and reports whether a panic left it
 func guard(f func()) (panicked bool) {
 	panicked = true
-	defer func() { recover() }()
+	defer func() {
+		if r := recover(); r != nil {
+			if e, ok := r.(error); ok {
+				vrf.Cover("panic: " + e.Error())
+			} else if m, ok := r.(string); ok {
+				vrf.Cover("panic: " + m)
+			}
+		}
+	}()
 	f()
 	return false
 }
